@@ -18,6 +18,7 @@ from hypothesis import strategies as st
 from vf import refmodel as rm
 from vf import specs
 from vf.runner import drive, VERIF
+from vf.checks.c02 import deep_merge
 
 PROPERTY = 'C17'
 LEVEL = 'fault_enumeration'
@@ -471,7 +472,8 @@ def check_corruption(ctx, case, thorough=False):
                     if st_ == 'E':
                         continue
                 if usable:
-                    want = rm.canon(dts[p['name']].validate(dts[p['name']].import_value(entry)))
+                    # a stored struct lacking optional members is completed from the default value
+                    want = deep_merge(defaults[p['name']], rm.canon(dts[p['name']].validate(dts[p['name']].import_value(entry))))
                     if got != want:
                         ctx.finding(f'corrupt:usable-entry-not-restored:{label}', sub, f'{p["name"]}: {got!r} instead of {want!r}')
                     else:
